@@ -36,6 +36,9 @@ type Ledger struct {
 	// both are legitimate adjudicators. Early lists the refused calls.
 	RefuseEarly bool
 	Early       []earlyRec
+	// FailRegister: the next Register call of participant idx fails once with a transient error
+	// (fault injection, programs that say so).
+	FailRegister map[channel.Index]bool
 }
 
 type earlyRec struct {
@@ -283,6 +286,12 @@ func (l *Ledger) RegisterAs(by string, req channel.AdjudicatorReq, subs []channe
 }
 
 func (p *ledgerParty) Register(_ context.Context, req channel.AdjudicatorReq, subs []channel.SignedState) error {
+	if p.l.FailRegister[req.Idx] {
+		vsched.PointOp("ledger.register")
+		delete(p.l.FailRegister, req.Idx)
+		p.l.Log = append(p.l.Log, fmt.Sprintf("register by idx%d FAILS (transient error, injected)", req.Idx))
+		return fmt.Errorf("register: transient error (injected)")
+	}
 	return p.l.RegisterAs(fmt.Sprintf("idx%d", req.Idx), req, subs)
 }
 
